@@ -27,6 +27,7 @@ pub struct Norm<'a> {
     pub return_no: usize,
     pub forpat_no: usize,
     pub tmp_no: usize,
+    pub split_no: usize,
     pub call_no: BTreeMap<String, usize>,
     pub let_no: BTreeMap<String, usize>,
     pub hoisted: Vec<Stmt>,
@@ -46,7 +47,7 @@ impl<'a> Norm<'a> {
     pub fn new(spec: &'a FnSpec, unit: &'a Unit, canary: bool, fname: &str) -> Self {
         Norm {
             spec, unit, canary, fname: fname.to_string(),
-            loop_no: 0, closure_no: 0, if_no: 0, match_no: 0, assert_no: 0, return_no: 0, forpat_no: 0, tmp_no: 0,
+            loop_no: 0, closure_no: 0, if_no: 0, match_no: 0, assert_no: 0, return_no: 0, forpat_no: 0, tmp_no: 0, split_no: 0,
             call_no: Default::default(), let_no: Default::default(), hoisted: vec![], log: Default::default(),
             raws: vec![], used_anchors: Default::default(), avail_anchors: Default::default(), errors: vec![],
             closure_depth: 0, canaries: vec![],
@@ -78,13 +79,15 @@ impl<'a> Norm<'a> {
         Some(self.raw_stmt(&format!("assert(false); /*VX-CANARY {}*/", tag)))
     }
 
-    fn is_iter_chain(e: &Expr) -> bool {
+    fn is_iter_chain(e: &Expr, iter_fns: &[String]) -> bool {
         match e {
             Expr::MethodCall(mc) => {
-                if ITER_HEADS_M.contains(&mc.method.to_string().as_str()) {
+                let m = mc.method.to_string();
+                // @iter-fn: methods of extracted types whose return type was mapped onto VxIter
+                if ITER_HEADS_M.contains(&m.as_str()) || iter_fns.iter().any(|f| f == &m) {
                     return true;
                 }
-                Self::is_iter_chain(&mc.receiver)
+                Self::is_iter_chain(&mc.receiver, iter_fns)
             }
             Expr::Call(c) => {
                 if let Expr::Path(p) = &*c.func {
@@ -94,7 +97,7 @@ impl<'a> Norm<'a> {
                 }
                 false
             }
-            Expr::Paren(p) => Self::is_iter_chain(&p.expr),
+            Expr::Paren(p) => Self::is_iter_chain(&p.expr, iter_fns),
             _ => false,
         }
     }
@@ -139,7 +142,9 @@ impl<'a> Norm<'a> {
                 self.bump("R-ASSERT");
                 Some(parse_quote!(vx_unreachable()))
             }
-            "vec" => {
+            "vec" | "smallvec" | "smallvec_inline" => {
+                // smallvec![..] / smallvec_inline![..] follow R-TYPE (SmallVec -> Vec): same element list as vec![..]
+                if name != "vec" { self.bump("R-TYPE"); }
                 // vec![e; n] -> vx_vec_repeat(e, n); other forms stay
                 let toks = mac.tokens.to_string();
                 if toks.contains(';') {
@@ -240,6 +245,38 @@ impl<'a> Norm<'a> {
 
     /// R-SLICEPAT and R-LETCHAIN on an `if`.
     fn rewrite_if(&mut self, i: &mut ExprIf) {
+        // R-REFPAT: `if let Some(&x) = E { B }` -> `if let Some(__vx_rK) = E { let x = *__vx_rK; B }`
+        if let Expr::Let(l) = &mut *i.cond {
+            struct RefPat<'b> { no: &'b mut usize, lets: Vec<Stmt> }
+            impl<'b> VisitMut for RefPat<'b> {
+                fn visit_pat_mut(&mut self, p: &mut Pat) {
+                    if let Pat::Reference(r) = p {
+                        if r.mutability.is_none() {
+                            if let Pat::Ident(pi) = &*r.pat {
+                                if pi.subpat.is_none() && pi.by_ref.is_none() {
+                                    *self.no += 1;
+                                    let fresh = Ident::new(&format!("__vx_r{}", *self.no), Span::call_site());
+                                    let inner = pi.clone();
+                                    self.lets.push(parse_quote!(let #inner = *#fresh;));
+                                    *p = parse_quote!(#fresh);
+                                    return;
+                                }
+                            }
+                        }
+                    }
+                    visit_mut::visit_pat_mut(self, p);
+                }
+            }
+            let mut rp = RefPat { no: &mut self.tmp_no, lets: vec![] };
+            rp.visit_pat_mut(&mut l.pat);
+            let lets = rp.lets;
+            if !lets.is_empty() {
+                for _ in &lets { self.bump("R-REFPAT"); }
+                let old = std::mem::take(&mut i.then_branch.stmts);
+                i.then_branch.stmts = lets;
+                i.then_branch.stmts.extend(old);
+            }
+        }
         // slice pattern: if let [a, ..] = E
         if let Expr::Let(l) = &*i.cond {
             if let Some((n, binds)) = Self::slice_pat_bindings(&l.pat) {
@@ -381,7 +418,23 @@ impl<'a> VisitMut for Norm<'a> {
     }
 
     fn visit_block_mut(&mut self, b: &mut Block) {
-        let old = std::mem::take(&mut b.stmts);
+        let mut old: Vec<Stmt> = std::mem::take(&mut b.stmts);
+        // R-LETSPLIT: `let p = a.f().g();` -> `let __t1 = a.f(); let p = __t1.g();` for callees named by @letsplit.
+        // Only the receiver spine of the initialiser is split (it is evaluated first, so the order of evaluation is unchanged).
+        if !self.spec.letsplit.is_empty() {
+            let mut out: Vec<Stmt> = vec![];
+            for mut s in old {
+                let mut pre: Vec<Stmt> = vec![];
+                if let Stmt::Local(l) = &mut s {
+                    if let Some(init) = &mut l.init {
+                        self.split_spine(&mut init.expr, &mut pre);
+                    }
+                }
+                out.extend(pre);
+                out.push(s);
+            }
+            old = out;
+        }
         for mut s in old {
             // pre-anchors
             let mut before: Vec<Stmt> = vec![];
@@ -493,11 +546,25 @@ impl<'a> VisitMut for Norm<'a> {
                     }
                 }
             }
+            Expr::ForLoop(f) if self.spec.fornext.contains(&(self.loop_no + 1)) => {
+                // R-FORNEXT: Rust's own desugaring of `for P in E { B }` (needed when B contains `continue`)
+                let n = self.loop_no + 1;
+                let (pat, ex, body, label) = (&f.pat, &f.expr, &f.body.stmts, &f.label);
+                let it = Ident::new(&format!("__vx_it{}", n), Span::call_site());
+                let head_id = Ident::new(&format!("__vx_anchor_loop{}_head", n), Span::call_site());
+                let bound_id = Ident::new(&format!("__vx_anchor_loop{}_bound", n), Span::call_site());
+                *e = parse_quote!({ let mut #it = #ex; #label loop { #head_id!(); let Some(#pat) = #it.next() else { break; }; #bound_id!(); #(#body)* } });
+                self.bump("R-FORNEXT");
+            }
             Expr::Macro(m) => {
                 if let Some(ne) = self.rewrite_macro(&m.mac.clone()) {
                     *e = ne;
                     return;
                 }
+            }
+            Expr::Closure(c) if c.asyncness.is_some() => {
+                c.asyncness = None;
+                self.bump("R-ASYNC");
             }
             Expr::Await(a) => {
                 let base = (*a.base).clone();
@@ -566,7 +633,7 @@ impl<'a> VisitMut for Norm<'a> {
                 let n = self.loop_no;
                 self.visit_expr_mut(&mut f.expr);
                 // iterator chain in head position
-                let mut chain = Self::is_iter_chain(&f.expr);
+                let mut chain = Self::is_iter_chain(&f.expr, &self.unit.iter_fns);
                 if let Expr::MethodCall(mc) = &mut *f.expr {
                     if mc.args.is_empty() && mc.method == "vx_iter" {
                         mc.method = Ident::new("iter", mc.method.span());
@@ -879,6 +946,32 @@ impl<'a> VisitMut for Norm<'a> {
 }
 
 impl<'a> Norm<'a> {
+    fn split_spine(&mut self, e: &mut Expr, out: &mut Vec<Stmt>) {
+        match e {
+            Expr::MethodCall(mc) => {
+                self.split_spine(&mut mc.receiver, out);
+                let callee = match &*mc.receiver {
+                    Expr::MethodCall(r) => Some(r.method.to_string()),
+                    Expr::Call(c) => if let Expr::Path(p) = &*c.func { p.path.segments.last().map(|s| s.ident.to_string()) } else { None },
+                    _ => None,
+                };
+                if let Some(nm) = callee {
+                    if self.spec.letsplit.iter().any(|x| x == &nm) {
+                        self.split_no += 1;
+                        let id = Ident::new(&format!("__t{}", self.split_no), Span::call_site());
+                        let recv = (*mc.receiver).clone();
+                        out.push(parse_quote!(let #id = #recv;));
+                        mc.receiver = Box::new(parse_quote!(#id));
+                        self.bump("R-LETSPLIT");
+                    }
+                }
+            }
+            Expr::Try(t) => self.split_spine(&mut t.expr, out),
+            Expr::Await(a) => self.split_spine(&mut a.base, out),
+            _ => {}
+        }
+    }
+
     fn finish_loop(&mut self, n: usize, body: &mut Block) {
         let s0 = self.anchor(&format!("loop{}.start", n));
         let s1 = self.anchor(&format!("loop{}.end", n));
